@@ -78,6 +78,12 @@ func (interp *Interpreter) SingleStepInvokeDecodedBlocks(pc ProgramCounter) (Exi
 
 	for {
 		if int(pc) >= n {
+			// Past the end of the blob the zero-extended code holds trap (A.4); it is
+			// charged like any other instruction.
+			if interp.Gas < 1 {
+				return ExitOOG, pc
+			}
+			interp.Gas -= 1
 			return ExitPanic, 0
 		}
 
